@@ -254,6 +254,10 @@ def _match(exp, out, env, W):
             return None
         r_ = exp[1](val)
         return None if r_ is None else bool(r_)
+    if kind in ("is_ok", "is_err"):
+        if not (isinstance(val, tuple) and val and val[0] in ("Ok", "Err")):
+            return None
+        return (val[0] == "Ok") == (kind == "is_ok")
     if kind in ("errv", "okv"):
         if val is guards.OPAQUE:
             return None
@@ -314,13 +318,18 @@ def g_row(K, prop, fid, reps, tag="", inst=None, cparams=None):
         status, detail = PROVED, ""
         sample = None
         for n in (WORLDS_FOR(fid) if WORLDS_FOR else WORLDS):
-            W = guards.World(n, cparams)
+            if isinstance(n, tuple):
+                W = guards.World(n[0], cparams, m=n[1])
+            else:
+                W = guards.World(n, cparams)
             W.K = K
             env = env_fn(W)
             exp = exp_fn(W, env)
             o, path = guards.outcome(tree, env, W)
             r = _match(exp, o, env, W)
             pth = " ; ".join("%s=%s" % (nf.show_term(s_), v) for s_, v in path)
+            if isinstance(n, tuple):
+                n = n[0] * 1000 + n[1]
             if r is False:
                 status = VIOLATED
                 detail = "representative %s (N=%d: %s): guards route to %s where the contract requires %s [path: %s]" % (
